@@ -2,8 +2,60 @@
 
 use std::panic::{catch_unwind, AssertUnwindSafe};
 
+// ------------------------------------------------------------------------------------------
+// heartbeat: a call of the implementation that never returns must not look like a tool error
+// ------------------------------------------------------------------------------------------
+static BEAT_MS: std::sync::atomic::AtomicU64 = std::sync::atomic::AtomicU64::new(0);
+static LAST_CASE: std::sync::Mutex<String> = std::sync::Mutex::new(String::new());
+static LAST_PANIC: std::sync::Mutex<String> = std::sync::Mutex::new(String::new());
+
+fn now_ms() -> u64 {
+  use std::time::{SystemTime, UNIX_EPOCH};
+  SystemTime::now().duration_since(UNIX_EPOCH).map(|d| d.as_millis() as u64).unwrap_or(0)
+}
+
+/// The harness is alive (called around every guarded call of the implementation, every case counted and every
+/// answer read from the model).
+pub fn beat() {
+  BEAT_MS.store(now_ms(), std::sync::atomic::Ordering::Relaxed);
+}
+
+/// Remembers the input the implementation is about to be given (shown when the run hangs).
+pub fn note_case(text: &str) {
+  beat();
+  if let Ok(mut g) = LAST_CASE.lock() {
+    g.clear();
+    g.extend(text.chars().take(2000));
+  }
+}
+
+pub fn note_panic(text: String) {
+  if let Ok(mut g) = LAST_PANIC.lock() {
+    *g = text;
+  }
+}
+
+pub fn last_panic() -> String {
+  LAST_PANIC.lock().map(|g| g.clone()).unwrap_or_default()
+}
+
+/// Ends the process with exit code 97 and a `HARNESS-HANG` line when nothing has moved for `limit_s` seconds.
+pub fn start_watchdog(limit_s: u64) {
+  beat();
+  std::thread::spawn(move || loop {
+    std::thread::sleep(std::time::Duration::from_secs(2));
+    let idle = now_ms().saturating_sub(BEAT_MS.load(std::sync::atomic::Ordering::Relaxed)) / 1000;
+    if idle > limit_s {
+      let last = LAST_CASE.lock().map(|g| g.clone()).unwrap_or_default();
+      eprintln!("HARNESS-HANG no progress for {} s; last input given to the implementation: {}", idle, last);
+      std::process::exit(97);
+    }
+  });
+}
+
 /// Runs `f`, turning a panic of the implementation into `Err(message)`.
 pub fn guarded<T>(f: impl FnOnce() -> T) -> Result<T, String> {
+  beat();
   match catch_unwind(AssertUnwindSafe(f)) {
     Ok(v) => Ok(v),
     Err(e) => {
